@@ -14,14 +14,97 @@ open LexVerif.Proof.Sep LexVerif.Proof.Slow LexVerif.Proof.Pipeline LexVerif.Pro
 open LexVerif.Props.C01Main LexVerif.Props.C01SlowDomain LexVerif.Props.C12 LexVerif.Props.C01Number
 open LexVerif.Props.C01 (IsI64)
 
+/-! ## scaling of the implicit exponent (mixed bases) -/
+
+theorem scaleVal_zero (c : Cfg) : scaleVal c 0 = 0 := by
+  unfold scaleVal; split <;> simp
+
+theorem litFrac_eq2 (r b : Nat) (l : FloatLit) :
+    litFrac r b l = (ofDigits r (l.intDigits ++ l.fracDigits) * b ^ l.exp.toNat,
+      r ^ l.fracDigits.length * b ^ (-l.exp).toNat) := by
+  unfold litFrac
+  split
+  · have : (-l.exp).toNat = 0 := by omega
+    rw [this, Nat.pow_zero, Nat.mul_one]
+  · have : l.exp.toNat = 0 := by omega
+    rw [this, Nat.pow_zero, Nat.mul_one]
+
+/-- **what an accepted, untruncated `parse_number` returns** (any format on separator-free input without base prefix,
+release build, any exponent base: the implicit exponent is scaled by `scaleVal`) -/
+theorem parseNumber_facts_s (c : Cfg) (hS : RelClass c) (hpre : c.basePrefix = 0)
+    (hre : c.exponentRadix ≤ 255)
+    (isPartial : Bool) (o : POpts) (b : Bytes) (neg fv : Bool) (hn : NoSep c b.slc) (n : Number) (cnt : Nat)
+    (h : parseNumber c isPartial o b neg fv = .ok (n, cnt)) (hmany : n.manyDigits = false) :
+    n.integer = (b.slc.drop b.index).take (digitsPrefix c.mantissaRadix (b.slc.drop b.index)).length ∧
+    n.fraction = (if hasPoint o c b then some ((b.slc.drop (intEnd c b + 1)).take (fracRun o c b).length) else none) ∧
+    n.mantissa = foldMantissa c.mantissaRadix (foldMantissa c.mantissaRadix 0
+      (digitsPrefix c.mantissaRadix (b.slc.drop b.index))) (fracRun o c b) ∧
+    (n.exponent = scaleVal c (-((fracRun o c b).length : Int)) + n.explicitExp ∨
+      ((digitsPrefix c.mantissaRadix (b.slc.drop b.index)).length + (fracRun o c b).length = 0 ∧ n.exponent = 0)) ∧
+    -(2 ^ 40 : Int) ≤ n.explicitExp ∧ n.explicitExp ≤ 2 ^ 40 ∧
+    ((digitsPrefix c.mantissaRadix (b.slc.drop b.index)).length + (fracRun o c b).length ≤ u64Step c.feats c.mantissaRadix ∨
+      (digitsPrefix c.mantissaRadix (b.slc.drop b.index)).length + (fracRun o c b).length -
+        u64Step c.feats c.mantissaRadix - zerosPrefix (b.slc.drop b.index) -
+        zerosPrefix (b.slc.drop
+          (if (b.slc[b.index + zerosPrefix (b.slc.drop b.index)]? == some o.dp) = true
+            then b.index + zerosPrefix (b.slc.drop b.index) + 1
+            else b.index + zerosPrefix (b.slc.drop b.index))) = 0) := by
+  rw [parseNumber_tail c hS.debug] at h
+  simp only [bind, Except.bind] at h
+  rw [integerPhase_rel c hS b b false hn (LexVerif.Proof.Grammar.prefixPhase_none hpre b)] at h
+  unfold intClosed at h
+  dsimp only at h
+  unfold fracRun hasPoint intEnd
+  generalize hdsI : digitsPrefix c.mantissaRadix (b.slc.drop b.index) = dsI at *
+  by_cases e1 : (c.feats.format && c.requiredIntegerDigits && decide (dsI.length = 0)) = true
+  · rw [if_pos e1] at h; cases h
+  rw [if_neg e1] at h
+  by_cases e2 : (c.feats.format && !false && c.noFloatLeadingZeros &&
+      decide ((List.take dsI.length (List.drop b.index b.slc)).length > 1) &&
+      decide ((List.take dsI.length (List.drop b.index b.slc)).head? = some 48)) = true
+  · rw [if_pos e2] at h; cases h
+  rw [if_neg e2] at h
+  simp only at h
+  rw [fractionPhase_rel c hS o _ _ (by simpa using hn)] at h
+  unfold fracClosed at h
+  simp only [adv_slc, adv_index] at h
+  have hfirst : (adv c Comp.integer dsI.length b).firstIsCased o.dp = (b.slc[b.index + dsI.length]? == some o.dp) := by
+    simp [Bytes.firstIsCased, Bytes.first]
+  rw [hfirst] at h
+  by_cases hdot : (b.slc[b.index + dsI.length]? == some o.dp) = true
+  · rw [if_pos hdot] at h
+    simp only [hdot, if_true]
+    generalize hdsF : digitsPrefix c.mantissaRadix (b.slc.drop (b.index + dsI.length + 1)) = dsF at *
+    by_cases e3 : (c.feats.format && c.requiredFractionDigits && decide (dsF.length = 0)) = true
+    · rw [if_pos e3] at h; cases h
+    rw [if_neg e3] at h
+    simp only at h
+    obtain ⟨f1, f2, f3, f4, f5, f6, f7⟩ := tailOf_facts c hS hre isPartial o neg _ _ (by simpa using hn)
+      (by simp only; exact (hn.drop _).take _) (by
+        intro fd hfd
+        simp only [Option.some.injEq] at hfd
+        rw [← hfd]; exact (hn.drop _).take _) n cnt h hmany
+    simp only at f1 f2 f3 f4 f5 f6 f7
+    exact ⟨f1, f2, f3, f4, f5, f6, f7⟩
+  · rw [if_neg hdot] at h
+    simp only [hdot, Bool.false_eq_true, if_false]
+    simp only at h
+    obtain ⟨f1, f2, f3, f4, f5, f6, f7⟩ := tailOf_facts c hS hre isPartial o neg _ _ (by simpa using hn)
+      (by simp only; exact (hn.drop _).take _) (by intro fd hfd; cases hfd) n cnt h hmany
+    simp only at f1 f2 f3 f4 f5 f6 f7
+    refine ⟨f1, f2, by rw [f3]; rfl, ?_, f5, f6, by simpa using f7⟩
+    simpa [scaleVal_zero] using f4
+
 /-- the facts about one accepted untruncated decimal `Number` -/
 theorem number_exact_of_parse_r (r stp : Nat) (hr2 : 2 ≤ r) (hstp : 1 ≤ stp) (hfit : r ^ stp ≤ 2 ^ 64) (c : Cfg) (hstep : u64Step c.feats r = stp) (hS : RelClass c) (hpre : c.basePrefix = 0) (hr : c.mantissaRadix = r)
-    (hb : c.exponentBase = r) (hre : c.exponentRadix ≤ 255)
+    (bs k : Nat) (hk5 : k ≤ 5) (hrk : r = bs ^ k) (hb : c.exponentBase = bs) (hsc : ∀ x : Int, scaleVal c x = x * k) (hre : c.exponentRadix ≤ 255)
     (isPartial : Bool) (o : POpts) (hdp : charToDigit o.dp r = none) (b : Bytes) (neg fv : Bool)
     (hn : NoSep c b.slc) (h256 : ∀ x ∈ b.slc, x < 256) (hlen : b.slc.length < 2 ^ 60) (n : Number) (cnt : Nat)
     (h : parseNumber c isPartial o b neg fv = .ok (n, cnt)) (hmany : n.manyDigits = false) :
-    NumberExactAt c n ∧ PlainSlices c n ∧ (sigBytes n.integer n.fraction).length ≤ stp := by
-  obtain ⟨F1, F2, F3, F4, F5, F6, F7⟩ := parseNumber_facts c hS hpre (by rw [hr, hb]) hre isPartial o b neg fv hn n cnt h hmany
+    NumberExactAt c n ∧ PlainSlices c n ∧ (sigBytes n.integer n.fraction).length ≤ stp ∧
+    (-(5 * (b.slc.length : Int)) - 2 ^ 40 ≤ n.exponent ∧ n.exponent ≤ 2 ^ 40) := by
+  obtain ⟨F1, F2, F3, F4, F5, F6, F7⟩ := parseNumber_facts_s c hS hpre hre isPartial o b neg fv hn n cnt h hmany
+  simp only [hsc] at F4
   rw [hr] at F1 F3 F4 F7
   rw [hstep] at F7
   unfold fracRun hasPoint intEnd at *
@@ -44,7 +127,7 @@ theorem number_exact_of_parse_r (r stp : Nat) (hr2 : 2 ≤ r) (hstp : 1 ≤ stp)
         n.fraction.getD [] = fbytes ∧ fbytes.length = dsF.length ∧ dv r fbytes = dsF ∧ ValidDigits r fbytes ∧
         n.mantissa = foldMantissa r (foldMantissa r 0 dsI) dsF ∧ (∀ x ∈ fbytes, x < 256) ∧
         (sigBytes n.integer n.fraction).length ≤ stp ∧
-        ((n.exponent = -(dsF.length : Int) + n.explicitExp ∨ (dsI.length + dsF.length = 0 ∧ n.exponent = 0)) ∧
+        ((n.exponent = -(dsF.length : Int) * k + n.explicitExp ∨ (dsI.length + dsF.length = 0 ∧ n.exponent = 0)) ∧
           (numberLit c n).fracDigits = dsF ∧ (∀ fr, n.fraction = some fr → fr = fbytes)) := by
     by_cases hpt : (s[b.index + dsI.length]? == some o.dp) = true
     · simp only [hpt, if_true] at F2 F3 F4 F7
@@ -136,7 +219,26 @@ theorem number_exact_of_parse_r (r stp : Nat) (hr2 : 2 ≤ r) (hstp : 1 ≤ stp)
     · intro fr hfr; rw [hr, hfrsome fr hfr]; exact hvalF
     · intro x hx; rw [F1] at hx; exact hmemrest x (List.mem_of_mem_take hx)
     · intro fr hfr x hx; rw [hfrsome fr hfr] at hx; exact hmemF x hx
-  refine ⟨?_, hps, hsig⟩
+  have hbound : -(5 * (s.length : Int)) - 2 ^ 40 ≤ n.exponent ∧ n.exponent ≤ 2 ^ 40 := by
+    have hnFle : dsF.length ≤ s.length := by
+      rw [← hnF, ← hfrac]
+      cases hfr : n.fraction with
+      | none => simp
+      | some fr =>
+        have := hfrsome fr hfr
+        simp only [Option.getD_some]
+        by_cases hpt : (s[b.index + dsI.length]? == some o.dp) = true
+        · simp only [hpt, if_true] at F2
+          rw [hfr] at F2; injection F2 with F2
+          rw [F2, List.length_take, List.length_drop]; omega
+        · simp only [hpt, Bool.false_eq_true, if_false] at F2
+          rw [hfr] at F2; cases F2
+    have hTb : dsF.length * k ≤ dsF.length * 5 := Nat.mul_le_mul_left _ hk5
+    have hTc : (dsF.length : Int) * (k : Int) = ((dsF.length * k : Nat) : Int) := by push_cast; rfl
+    rcases hexp with he | ⟨_, he⟩
+    · rw [he, Int.neg_mul, hTc]; constructor <;> omega
+    · rw [he]; constructor <;> omega
+  refine ⟨?_, hps, hsig, hbound⟩
   -- NumberExactAt
   obtain ⟨z, hz⟩ := sig_decomp n.integer n.fraction
   have hvs : ValidDigits r (sigBytes n.integer n.fraction) := by
@@ -173,27 +275,32 @@ theorem number_exact_of_parse_r (r stp : Nat) (hr2 : 2 ≤ r) (hstp : 1 ≤ stp)
   refine ⟨by rw [hmant]; exact Nat.lt_of_lt_of_le hDlt hfit, ?_, ?_⟩
   · -- `IsI64 exponent`
     unfold IsI64
+    have hTb : dsF.length * k ≤ dsF.length * 5 := Nat.mul_le_mul_left _ hk5
+    have hTc : (dsF.length : Int) * (k : Int) = ((dsF.length * k : Nat) : Int) := by push_cast; rfl
     rcases hexp with he | ⟨_, he⟩
-    · rw [he]; constructor <;> omega
+    · rw [he, Int.neg_mul, hTc]; constructor <;> omega
     · rw [he]; constructor <;> omega
   · -- the value
-    rw [hr, hb, powFrac_eq, litFrac_eq]
+    rw [hr, hb, powFrac_eq, litFrac_eq2]
     unfold RatEq
     simp only [hint, hfd]
     have hE : (numberLit c n).exp = n.explicitExp := rfl
     rw [hE, hmant]
     rcases hexp with he | ⟨h0, he⟩
-    · rw [he]
-      have e1 : (-(dsF.length : Int) + n.explicitExp).toNat + (dsF.length + (-n.explicitExp).toNat) =
-          n.explicitExp.toNat + (-(-(dsF.length : Int) + n.explicitExp)).toNat := by omega
-      calc ofDigits r (dsI ++ dsF) * r ^ (-(dsF.length : Int) + n.explicitExp).toNat *
-            (r ^ dsF.length * r ^ (-n.explicitExp).toNat)
+    · have hTc : (dsF.length : Int) * (k : Int) = ((dsF.length * k : Nat) : Int) := by push_cast; rfl
+      have hpw : r ^ dsF.length = bs ^ (dsF.length * k) := by rw [hrk, ← Nat.pow_mul, Nat.mul_comm]
+      rw [he, Int.neg_mul, hTc, hpw]
+      generalize dsF.length * k = T
+      have e1 : (-(T : Int) + n.explicitExp).toNat + (T + (-n.explicitExp).toNat) =
+          n.explicitExp.toNat + (-(-(T : Int) + n.explicitExp)).toNat := by omega
+      calc ofDigits r (dsI ++ dsF) * bs ^ (-(T : Int) + n.explicitExp).toNat *
+            (bs ^ T * bs ^ (-n.explicitExp).toNat)
           = ofDigits r (dsI ++ dsF) *
-              r ^ ((-(dsF.length : Int) + n.explicitExp).toNat + (dsF.length + (-n.explicitExp).toNat)) := by
+              bs ^ ((-(T : Int) + n.explicitExp).toNat + (T + (-n.explicitExp).toNat)) := by
             rw [Nat.pow_add, Nat.pow_add]; ring
-        _ = ofDigits r (dsI ++ dsF) * r ^ (n.explicitExp.toNat + (-(-(dsF.length : Int) + n.explicitExp)).toNat) := by
+        _ = ofDigits r (dsI ++ dsF) * bs ^ (n.explicitExp.toNat + (-(-(T : Int) + n.explicitExp)).toNat) := by
             rw [e1]
-        _ = ofDigits r (dsI ++ dsF) * r ^ n.explicitExp.toNat * r ^ (-(-(dsF.length : Int) + n.explicitExp)).toNat := by
+        _ = ofDigits r (dsI ++ dsF) * bs ^ n.explicitExp.toNat * bs ^ (-(-(T : Int) + n.explicitExp)).toNat := by
             rw [Nat.pow_add]; ring
     · have hnil : dsI ++ dsF = [] := List.eq_nil_of_length_eq_zero (by rw [List.length_append]; exact h0)
       rw [hnil]
@@ -462,16 +569,16 @@ theorem many_words_r (r stp : Nat) (hr2 : 2 ≤ r) (hstp : 1 ≤ stp) (hfit : r 
 the first stp of them (`r^18 ≤ w < r^stp`) and `exponent = q` is such that the exact value `V` of the digit content
 satisfies `w·r^q ≤ V < (w+1)·r^q` -/
 theorem number_truncated_of_parse_r (r stp : Nat) (hr2 : 2 ≤ r) (hstp : 1 ≤ stp) (hfit : r ^ stp ≤ 2 ^ 64) (c : Cfg) (hstep : u64Step c.feats r = stp) (hS : RelClass c) (hpre : c.basePrefix = 0) (hr : c.mantissaRadix = r)
-    (hb : c.exponentBase = r) (hre : c.exponentRadix ≤ 255) (hbc : c.bytesContiguous = true)
+    (bs k : Nat) (hk5 : k ≤ 5) (hrk : r = bs ^ k) (hb : c.exponentBase = bs) (hsc : ∀ x : Int, scaleVal c x = x * k) (hre : c.exponentRadix ≤ 255) (hbc : c.bytesContiguous = true)
     (isPartial : Bool) (o : POpts) (hdp : charToDigit o.dp r = none) (b : Bytes) (neg fv : Bool)
     (hn : NoSep c b.slc) (h256 : ∀ x ∈ b.slc, x < 256) (hlen : b.slc.length < 2 ^ 60) (n : Number) (cnt : Nat)
     (h : parseNumber c isPartial o b neg fv = .ok (n, cnt)) (hmany : n.manyDigits = true) :
     PlainSlices c n ∧ stp < (sigBytes n.integer n.fraction).length ∧
     n.mantissa = ofDigits r (dv r ((sigBytes n.integer n.fraction).take stp)) ∧
     r ^ (stp - 1) ≤ n.mantissa ∧ n.mantissa < r ^ stp ∧
-    n.exponent = ((sigBytes n.integer n.fraction).length : Int) - stp + n.explicitExp - ((n.fraction.getD []).length : Int) ∧
+    n.exponent = (((sigBytes n.integer n.fraction).length : Int) - stp - ((n.fraction.getD []).length : Int)) * k + n.explicitExp ∧
     -(2 ^ 40 : Int) ≤ n.explicitExp ∧ n.explicitExp ≤ 2 ^ 40 ∧
-    n.integer.length < 2 ^ 60 ∧ (n.fraction.getD []).length < 2 ^ 60 := by
+    n.integer.length ≤ b.slc.length ∧ (n.fraction.getD []).length ≤ b.slc.length := by
   obtain ⟨ip, fp, ht, hstart, hnI, hids, hnF, hfrac, _, _⟩ := parseNumber_split c hS hpre isPartial o b neg fv hn n cnt h
   obtain ⟨explicit, ex0, endIdx, x2, x3, hpos, hmc⟩ := tailOf_many c hS hre isPartial o neg ip fp
     (by rw [hstart]; exact hn) (by rw [hids]; exact (hn.drop _).take _)
@@ -490,8 +597,7 @@ theorem number_truncated_of_parse_r (r stp : Nat) (hr2 : 2 ≤ r) (hstp : 1 ≤ 
   rw [hfrac] at m2
   unfold fracRun hasPoint intEnd at *
   rw [hr] at hpos mcase m1 m2
-  have sc : ∀ x : Int, scaleVal c x = x := scaleVal_same_base c (by rw [hr, hb])
-  simp only [sc] at mcase
+  simp only [hsc] at mcase
   have hz := zfTerm_cases_r r hr2 o hdp b.slc b.index
   simp only at hz
   generalize hs : b.slc = s at *
@@ -571,10 +677,30 @@ theorem number_truncated_of_parse_r (r stp : Nat) (hr2 : 2 ≤ r) (hstp : 1 ≤ 
   rw [m1, hfr]
   have mc' : _ := mcase
   rw [← m2, hfr] at mc'
-  obtain ⟨w1, w2⟩ := many_words_r r stp hr2 hstp hfit (rest.take dsI.length) frac explicit n.mantissa n.exponent ri3 hvf
+  have hk0 : (k : Int) ≠ 0 := by
+    intro h0
+    have hk00 : k = 0 := by exact_mod_cast h0
+    rw [hk00, Nat.pow_zero] at hrk
+    omega
+  have conv : ∀ X : Int, n.exponent = X * k + explicit → (n.exponent - explicit) / k + explicit = X + explicit := by
+    intro X h
+    rw [h, Int.add_sub_cancel, Int.mul_ediv_cancel _ hk0]
+  obtain ⟨X, hX⟩ : ∃ X : Int, n.exponent = X * k + explicit := by
+    rcases mc' with ⟨_, _, a3⟩ | ⟨_, fd, _, _, a4⟩
+    · exact ⟨_, a3⟩
+    · exact ⟨_, a4⟩
+  obtain ⟨w1, w2⟩ := many_words_r r stp hr2 hstp hfit (rest.take dsI.length) frac explicit n.mantissa
+    ((n.exponent - explicit) / k + explicit) ri3 hvf
     (fun x hx => hmemrest x (List.mem_of_mem_take hx)) h256f hNgt (by
       have e : ((rest.take dsI.length).length : Int) = (dsI.length : Int) := by rw [ri1]
-      rw [e]; exact mc')
+      rw [e]
+      rcases mc' with ⟨a1, a2, a3⟩ | ⟨a1, fd, a2, a3, a4⟩
+      · exact Or.inl ⟨a1, a2, conv _ a3⟩
+      · exact Or.inr ⟨a1, fd, a2, a3, conv _ a4⟩)
+  have hXv : X = ((sigBytes (rest.take dsI.length) frac).length : Int) - stp - ((frac.getD []).length : Int) := by
+    have := conv X hX
+    rw [w2] at this
+    omega
   have hvs : ValidDigits r (sigBytes (rest.take dsI.length) frac) := valid_sigBytes ri3 hvf
   have htlen : ((sigBytes (rest.take dsI.length) frac).take stp).length = stp := by
     rw [List.length_take]; omega
@@ -597,46 +723,51 @@ theorem number_truncated_of_parse_r (r stp : Nat) (hr2 : 2 ≤ r) (hstp : 1 ≤ 
     have := ofDigits_take_pos_r r hr2 hsg h48 hc0 stp (by omega)
     rw [htlen] at this
     exact this
-  have hl1 : (rest.take dsI.length).length < 2 ^ 60 := by
+  have hl1 : (rest.take dsI.length).length ≤ s.length := by
     rw [List.length_take, ← hrest, List.length_drop]; omega
-  have hl2 : (frac.getD []).length < 2 ^ 60 := by
+  have hl2 : (frac.getD []).length ≤ s.length := by
     rw [← hfr, m2]
     split
     · simp only [Option.getD_some, List.length_take, List.length_drop]; omega
     · simp
-  exact ⟨hps, hNgt, w1, hwge, hwlt, by rw [w2, m3], by rw [m3]; exact x2, by rw [m3]; exact x3, hl1, hl2⟩
+  exact ⟨hps, hNgt, w1, hwge, hwlt, by rw [hX, hXv, m3], by rw [m3]; exact x2, by rw [m3]; exact x3, hl1, hl2⟩
 
 /-- **`NumberExact`, proved** (with the two side conditions the statement in `Props.C01Main` lacks: the decimal point of
 the options is not a digit — implied by `is_valid_options_punctuation` — and the input is shorter than `2^60` bytes):
 every untruncated decimal `Number` the syntax layer produces for a format without digit separator and base prefix is
 exact, its digit slices are plain, and it has at most stp significant digits. -/
 theorem number_exact_of_syntax_r (r stp : Nat) (hr2 : 2 ≤ r) (hstp : 1 ≤ stp) (hfit : r ^ stp ≤ 2 ^ 64) (c : Cfg) (hstep : u64Step c.feats r = stp) (hr8 : c.feats.powerOfTwo = false → c.mantissaRadix ≤ 10) (hd : c.debug = false)
-    (hclass : c.feats.format = false ∨ SepPrefixFree c.fmt) (hr : c.mantissaRadix = r) (hb : c.exponentBase = r)
+    (hclass : c.feats.format = false ∨ SepPrefixFree c.fmt) (hr : c.mantissaRadix = r) (bs k : Nat) (hk5 : k ≤ 5) (hrk : r = bs ^ k) (hb : c.exponentBase = bs) (hsc : ∀ x : Int, scaleVal c x = x * k)
     (o : POpts) (hdp : charToDigit o.dp r = none) (isPartial : Bool) (s : List Nat) (fv : Bool)
     (h256 : ∀ x ∈ s, x < 256) (hlen : s.length < 2 ^ 60) (n : Number) (cnt : Nat)
     (hp : parseFloatSyntax c o isPartial s fv = .ok (.number n cnt)) (hmany : n.manyDigits = false) :
-    NumberExactAt c n ∧ PlainSlices c n ∧ (sigBytes n.integer n.fraction).length ≤ stp := by
+    NumberExactAt c n ∧ PlainSlices c n ∧ (sigBytes n.integer n.fraction).length ≤ stp ∧
+    (-(5 * (s.length : Int)) - 2 ^ 40 ≤ n.exponent ∧ n.exponent ≤ 2 ^ 40) := by
   obtain ⟨hS, hpre, hsep, hre⟩ := relClass_of_r c hd hclass hr8
   obtain ⟨p, b, neg, cnt', hslc, hpn⟩ := syntax_to_parse_r c hd hclass hr8 o isPartial s fv n cnt hp
-  exact number_exact_of_parse_r r stp hr2 hstp hfit c hstep hS hpre hr hb hre p o hdp b neg fv (noSep_of_sep_zero c hsep _)
+  have hres := number_exact_of_parse_r r stp hr2 hstp hfit c hstep hS hpre hr bs k hk5 hrk hb hsc hre p o hdp b neg fv (noSep_of_sep_zero c hsep _)
     (by rw [hslc]; exact h256) (by rw [hslc]; exact hlen) n cnt' hpn hmany
+  rw [hslc] at hres
+  exact hres
 
 /-- the truncated counterpart: see `number_truncated_of_parse_r` -/
 theorem number_truncated_of_syntax_r (r stp : Nat) (hr2 : 2 ≤ r) (hstp : 1 ≤ stp) (hfit : r ^ stp ≤ 2 ^ 64) (c : Cfg) (hstep : u64Step c.feats r = stp) (hr8 : c.feats.powerOfTwo = false → c.mantissaRadix ≤ 10) (hd : c.debug = false)
-    (hclass : c.feats.format = false ∨ SepPrefixFree c.fmt) (hr : c.mantissaRadix = r) (hb : c.exponentBase = r)
+    (hclass : c.feats.format = false ∨ SepPrefixFree c.fmt) (hr : c.mantissaRadix = r) (bs k : Nat) (hk5 : k ≤ 5) (hrk : r = bs ^ k) (hb : c.exponentBase = bs) (hsc : ∀ x : Int, scaleVal c x = x * k)
     (o : POpts) (hdp : charToDigit o.dp r = none) (isPartial : Bool) (s : List Nat) (fv : Bool)
     (h256 : ∀ x ∈ s, x < 256) (hlen : s.length < 2 ^ 60) (n : Number) (cnt : Nat)
     (hp : parseFloatSyntax c o isPartial s fv = .ok (.number n cnt)) (hmany : n.manyDigits = true) :
     PlainSlices c n ∧ stp < (sigBytes n.integer n.fraction).length ∧
     n.mantissa = ofDigits r (dv r ((sigBytes n.integer n.fraction).take stp)) ∧
     r ^ (stp - 1) ≤ n.mantissa ∧ n.mantissa < r ^ stp ∧
-    n.exponent = ((sigBytes n.integer n.fraction).length : Int) - stp + n.explicitExp - ((n.fraction.getD []).length : Int) ∧
+    n.exponent = (((sigBytes n.integer n.fraction).length : Int) - stp - ((n.fraction.getD []).length : Int)) * k + n.explicitExp ∧
     -(2 ^ 40 : Int) ≤ n.explicitExp ∧ n.explicitExp ≤ 2 ^ 40 ∧
-    n.integer.length < 2 ^ 60 ∧ (n.fraction.getD []).length < 2 ^ 60 := by
+    n.integer.length ≤ s.length ∧ (n.fraction.getD []).length ≤ s.length := by
   obtain ⟨hS, hpre, hsep, hre⟩ := relClass_of_r c hd hclass hr8
   obtain ⟨p, b, neg, cnt', hslc, hpn⟩ := syntax_to_parse_r c hd hclass hr8 o isPartial s fv n cnt hp
-  exact number_truncated_of_parse_r r stp hr2 hstp hfit c hstep hS hpre hr hb hre (by simp [Cfg.bytesContiguous, hsep]) p o hdp b neg fv
+  have hres := number_truncated_of_parse_r r stp hr2 hstp hfit c hstep hS hpre hr bs k hk5 hrk hb hsc hre (by simp [Cfg.bytesContiguous, hsep]) p o hdp b neg fv
     (noSep_of_sep_zero c hsep _) (by rw [hslc]; exact h256) (by rw [hslc]; exact hlen) n cnt' hpn hmany
+  rw [hslc] at hres
+  exact hres
 
 
 /-! ## the decimal point of valid options is not a digit of the mantissa radix -/
